@@ -796,7 +796,9 @@ pub fn process<I: BufRead, O: Write>(
                 } else if state == State::Active {
                     lines.push((filename_rc.clone(), line, included_in_rc.clone()));
                     output.write_all(new_line.as_bytes())?;
-                    if !new_line.ends_with('\n') && has_lf {
+                    // The last line of an included file may lack its end of line: the next
+                    // line of the including file must not be glued to it
+                    if !new_line.ends_with('\n') && (has_lf || !context.includes_stack.is_empty()) {
                         output.write_all(b"\n")?;
                     }
                 }
